@@ -632,6 +632,59 @@ theorem effSteps_le (g : G) (sched : List Tid) : effSteps g sched + mu (run g sc
     · rename_i he; have := mu_step_lt g u he; omega
     · have := mu_step_le g u; omega
 
+/-! ### Count-fairness is enough for the workers -/
+
+theorem en_t_run_back (g : G) (sched : List Tid) (i : Nat) (h : en (run g sched) (.t i) = true) :
+    en g (.t i) = true := by
+  induction sched generalizing g with
+  | nil => exact h
+  | cons u l ih => exact en_t_step_back g u i (ih (step g u) h)
+
+/-- a worker that is still unfinished at the end did something every time it was scheduled -/
+theorem count_le_effSteps (g : G) (sched : List Tid) (i : Nat) (h : en (run g sched) (.t i) = true) :
+    sched.count (.t i) ≤ effSteps g sched := by
+  induction sched generalizing g with
+  | nil => simp [effSteps]
+  | cons u l ih =>
+    have hl := ih (step g u) h
+    simp only [effSteps, List.count_cons]
+    by_cases hu : u = .t i
+    · subst hu
+      have : en g (.t i) = true := en_t_run_back g (.t i :: l) i h
+      simp only [this, ↓reduceIte, beq_self_eq_true]
+      omega
+    · have : (u == Tid.t i) = false := by simpa using hu
+      simp only [this, Bool.false_eq_true, ↓reduceIte]
+      omega
+
+/-- **Workers finish under plain count-fairness**, whatever the receiver and the environment do
+(stop / kill included): if every worker unfinished in `g` is scheduled at least `mu g` times in
+`sched` — anywhere, in any order — every worker is finished after `sched`. -/
+theorem workers_done (g : G) (sched : List Tid)
+    (h : ∀ i, en g (.t i) = true → mu g ≤ sched.count (.t i)) :
+    ∀ i, en (run g sched) (.t i) = false := by
+  intro i
+  cases he : en (run g sched) (.t i) with
+  | false => rfl
+  | true =>
+    have h1 := count_le_effSteps g sched i he
+    have h2 := effSteps_le g sched
+    have h3 := h i (en_t_run_back g sched i he)
+    have h4 := mu_step_lt (run g sched) (.t i) he
+    omega
+
+theorem quiescent_of_workers_done {g : G} (K : StackOk g) (h : ∀ i, en g (.t i) = false) :
+    quiescent g = true := by
+  have hq : cnt Frame.active g = 0 := by
+    unfold cnt
+    apply sum_eq_zero_of_all
+    intro st hst
+    obtain ⟨i, hi⟩ := List.getElem?_of_mem hst
+    have := h i
+    simp only [en, hi, Bool.not_eq_false'] at this
+    exact countP_active_of_finished st this (K st hst)
+  simp [quiescent, hq]
+
 /-! ### A CAS fails only because somebody else made progress -/
 
 /-- a frame below the top of a stack is a program frame or a send inside `box_message` -/
